@@ -410,11 +410,46 @@ class Bytes(Stream):
         return None
 
 
+class TsBytes(Stream):
+    """well-formed byte strings in the sense of TS 24.501 itself (tables 8.2.x / 8.3.x as transcribed in Spec/TS24501Tables.v,
+    every message type, optional IEs in table order, built by the Coq reference encoder of the C09 check): decoding and
+    encoding again must reproduce them. The other streams take the IEI constants from the Go source, so a constant that
+    drifts away from the specification is self-consistent there and only shows here."""
+    name = "ts-bytes"
+    sub = "nasdec"
+
+    def generate(self, rng, tier):
+        from . import C09
+        self._ref = C09.RefEnc()
+        return self._ref.generate(rng, tier)
+
+    def go_case(self, c):
+        return {k: v for k, v in self._ref.go_case(c).items() if k in ("hex", "_epd", "_ty", "_ieis")}
+
+    def from_replay(self, c):
+        self._ref = __import__("vlib.props.C09", fromlist=["RefEnc"]).RefEnc()
+        return {"hex": c["hex"], "epd": c.get("_epd"), "ty": c.get("_ty"), "ieis": c.get("_ieis", []), "cls": "replay", "mand": [], "opt": []}
+
+    def classify(self, c, o):
+        return "epd %02x" % c["epd"] if isinstance(c.get("epd"), int) else "replay"
+
+    def key(self, c, o):
+        return c["hex"]
+
+    def direct_check(self, c, o):
+        if "panic" in o or any(k.endswith("_panic") for k in o): return "decoding / re-encoding a TS 24.501 message panics: %r" % {k: v for k, v in o.items() if "panic" in k}
+        if "dec_err" in o: return "a well-formed TS 24.501 message is rejected: " + str(o["dec_err"])
+        if o.get("reenc") != c["hex"]:
+            return "a well-formed TS 24.501 byte string (message type %s, IEIs %s in table order) is not reproduced by decode + encode: %s" % (
+                c.get("ty"), c.get("ieis"), str(o.get("reenc", o.get("reenc_err")))[:300])
+        return None
+
+
 class C08(Check):
     pid = "C08"
     prop_files = ["Properties/C08.v"]
-    extra_targets = ["Model/NasCorr.vo"]
-    streams = [WellFormed(), Odd(), Bytes()]
+    extra_targets = ["Model/NasCorr.vo", "Model/NasLayout.vo", "Model/NasRefCorr.vo"]
+    streams = [WellFormed(), Odd(), Bytes(), TsBytes()]
     trusted = ["Coq 8.16.1 kernel incl. vm_compute (no native_compute)", "no axioms (Print Assumptions: closed under the global context)",
                "translator harness/gen_nas.go (go/ast; statements outside the recognised shapes become Unrecognised and fail desc_pair_ok)",
                "interpreter semantics of Model/NasCodec.v (binary.Read/Write, slicing, SetLen, IEI loop) tied by the streams nasrt-wellformed, nasrt-odd, nasdec",
